@@ -19,7 +19,7 @@ from .errors import HarnessError, InjectedCrash
 from .interleave import CrashTracer, Interleaver, LineCounter, current_vthread
 
 # uuid4 / md5 tokens, also the truncated remnants that dask leaves in fused key names ("...-c9c0a162d9334d1e864fa80a3f--570")
-_HEX = re.compile(r"(?<![0-9a-z])[0-9a-f]{3,}(?![0-9a-z])")
+_HEX = re.compile(r"0x[0-9a-f]+|(?<![0-9a-z])[0-9a-f]{3,}(?![0-9a-z])")
 _SEP = re.compile(r"-*#[-#]*")
 _tls = threading.local()
 
@@ -32,6 +32,60 @@ def _keyparts(key):
     if isinstance(key, tuple):
         return _strip(key[0]), tuple(key[1:])
     return _strip(key), ()
+
+
+def literal_sig(obj, depth=5):
+    """deterministic structural fingerprint of what is embedded in a task (args, kwargs, partials, small objects);
+    independent of memory addresses, uuid/hash tokens and set/dict iteration order"""
+    from dask._task_spec import Alias, DataNode, GraphNode, Task, TaskRef
+
+    if obj is None or isinstance(obj, (bool, int, float, complex)):
+        return repr(obj)
+    if isinstance(obj, str):
+        return "s:" + _strip(obj)[:80]
+    if isinstance(obj, bytes):
+        return "b:" + hashlib.sha1(obj).hexdigest()[:12]
+    if depth <= 0:
+        return type(obj).__name__
+    if isinstance(obj, np.ndarray):
+        if obj.dtype == object:
+            return "O[" + ",".join(literal_sig(x, depth - 1) for x in obj.ravel()[:16]) + "]"
+        return "nd:" + str(obj.shape) + hashlib.sha1(np.ascontiguousarray(obj).view(np.uint8).tobytes()).hexdigest()[:12]
+    if isinstance(obj, np.generic):
+        return repr(obj.item())
+    if isinstance(obj, TaskRef):
+        return "ref:" + _strip(obj.key if not isinstance(obj.key, tuple) else obj.key[0]) + (str(obj.key[1:]) if isinstance(obj.key, tuple) else "")
+    if isinstance(obj, Alias):
+        return "alias"
+    if isinstance(obj, DataNode):
+        return "data:" + literal_sig(obj.value, depth - 1)
+    if isinstance(obj, Task):
+        f = obj.func
+        if getattr(f, "__name__", "") == "_execute_subgraph" and len(obj.args) >= 3:
+            # fused tasks: dask orders the in-keys / dependencies by set iteration
+            inner, outkey, inkeys, *dd = obj.args
+            return ("sub:" + literal_sig(inner, depth - 1) + literal_sig(outkey, 2) + "<"
+                    + ",".join(sorted(literal_sig(x, 2) for x in inkeys)) + "><"
+                    + ",".join(sorted(literal_sig(x, 2) for x in dd)) + ">")
+        return ("task:" + getattr(f, "__name__", type(f).__name__) + "(" + literal_sig(obj.args, depth - 1) + ";"
+                + literal_sig(obj.kwargs, depth - 1) + ")")
+    if isinstance(obj, (list, tuple)):
+        return "[" + ",".join(literal_sig(x, depth - 1) for x in obj[:64]) + "]"
+    if isinstance(obj, (set, frozenset)):
+        return "{" + ",".join(sorted(literal_sig(x, depth - 1) for x in obj)) + "}"
+    if isinstance(obj, dict):
+        items = sorted((literal_sig(k, 1), literal_sig(v, depth - 1)) for k, v in obj.items())
+        return "{" + ",".join(k + ":" + v for k, v in items[:64]) + "}"
+    import functools
+
+    if isinstance(obj, functools.partial):
+        return "partial:" + getattr(obj.func, "__name__", "?") + literal_sig(obj.args, depth - 1) + literal_sig(obj.keywords, depth - 1)
+    if callable(obj) and hasattr(obj, "__name__"):
+        return "fn:" + obj.__name__
+    d = getattr(obj, "__dict__", None)
+    if isinstance(d, dict) and not isinstance(obj, type):
+        return type(obj).__name__ + literal_sig(d, depth - 1)
+    return type(obj).__name__
 
 
 def fingerprint(obj, depth=3) -> str:
@@ -128,7 +182,7 @@ class SimScheduler:
 
     def _canonical(self, g):
         """Merkle ids independent of uuid / hash-seed tokens in key names"""
-        from dask._task_spec import Alias, DataNode
+        from dask._task_spec import Alias, DataNode, Task
 
         order = list(g)
         deps = {k: [d for d in g[k].dependencies if d in g] for k in order}
@@ -154,6 +208,7 @@ class SimScheduler:
                     stack.append(c)
         if len(topo) != len(order):
             raise HarnessError("cycle in task graph")
+        base = {}
         for k in topo:
             node = g[k]
             name, idx = _keyparts(k)
@@ -162,22 +217,57 @@ class SimScheduler:
                 v = node.value
                 if isinstance(v, np.ndarray) and v.dtype != object:
                     extra = hashlib.sha1(np.ascontiguousarray(v).view(np.uint8).tobytes()).hexdigest() + str(v.shape)
-                elif isinstance(v, (int, float, str, bool, type(None), tuple)):
-                    extra = _strip(repr(v))[:200]
                 else:
-                    extra = type(v).__name__
-            h = hashlib.sha1(repr((name, idx, type(node).__name__, extra, sorted(cid[d] for d in deps[k]))).encode())
-            cid[k] = h.hexdigest()[:16]
-        # make unique: rank by graph insertion order among equal ids
-        seen: dict = {}
+                    try:
+                        extra = literal_sig(v, 4)[:400]
+                    except Exception:  # noqa: BLE001
+                        extra = type(v).__name__
+            elif isinstance(node, Task):
+                try:
+                    extra = hashlib.sha1(literal_sig(node).encode()).hexdigest()[:12]
+                except Exception:  # noqa: BLE001 - fingerprinting is best effort
+                    extra = "?"
+            base[k] = repr((name, idx, type(node).__name__, extra))
+        # colour refinement (Weisfeiler-Lehman) over dependencies *and* dependents until the partition is stable:
+        # tasks that keep the same colour are interchangeable (automorphic for all practical purposes)
+        col = {k: hashlib.sha1(base[k].encode()).hexdigest()[:16] for k in topo}
+        nclasses = len(set(col.values()))
+        for _ in range(64):
+            new = {}
+            for k in topo:
+                new[k] = hashlib.sha1((col[k] + "<" + "|".join(sorted(col[d] for d in deps[k])) + ">"
+                                       + "|".join(sorted(col[c] for c in dependents[k]))).encode()).hexdigest()[:16]
+            col = new
+            n2 = len(set(col.values()))
+            if n2 == nclasses:
+                break
+            nclasses = n2
+        cid.update(col)
+        # make unique: among equal ids rank by the (already unique) ids of the dependencies, then by insertion order;
+        # what is still tied after that is symmetric in both directions and interchangeable
+        pos = {k: i for i, k in enumerate(order)}
+        groups: dict = {}
         uid = {}
-        for k in order:
-            n = seen.get(cid[k], 0)
-            seen[cid[k]] = n + 1
-            if n:
-                self.stats.ties += 1
-            name, idx = _keyparts(k)
-            uid[k] = f"{name}{list(idx) if idx else ''}~{cid[k][:8]}" + (f"#{n}" if n else "")
+        depth = {}
+        for k in topo:
+            depth[k] = 1 + max((depth[d] for d in deps[k]), default=-1)
+        for k in sorted(topo, key=lambda k: depth[k]):
+            groups.setdefault(cid[k], []).append(k)
+        for c, members in groups.items():
+            pass
+        done_groups = set()
+        for k in sorted(topo, key=lambda k: depth[k]):
+            c = cid[k]
+            if c in done_groups:
+                continue
+            done_groups.add(c)
+            members = groups[c]
+            members.sort(key=lambda m: (sorted(uid[d] for d in deps[m]), pos[m]))
+            for n, m in enumerate(members):
+                if n:
+                    self.stats.ties += 1
+                name, idx = _keyparts(m)
+                uid[m] = f"{name}{list(idx) if idx else ''}~{c[:8]}" + (f"#{n}" if n else "")
         return uid, deps, dependents
 
     # ---- entry point -------------------------------------------------------
@@ -402,7 +492,9 @@ class SimScheduler:
         return hashlib.sha1("\n".join(self.order).encode()).hexdigest()[:12]
 
     def event_digest(self) -> str:
-        return hashlib.sha1(repr(self.log).encode()).hexdigest()[:16]
+        # switch locations are kept in the log for the reader but not in the digest: abTEM itself iterates over a set
+        # of characters (FrozenPhonons._axes), so the *position* of a line event may depend on PYTHONHASHSEED
+        return hashlib.sha1(repr([e[:3] if e[0] == "sw" else e for e in self.log]).encode()).hexdigest()[:16]
 
     def nontrivial(self) -> bool:
         s = self.stats
